@@ -107,13 +107,44 @@ def pratt(ctx, r):
         r.missing("parse_expr_bp", PARSE)
         return
     param = q.pat_bindings([p for p in f["params"] if not p.get("self")][0]["pat"])[0]
-    breaks = []
-    for x in q.walk(f["body"]):
-        if x["k"] == "If" and any(st["k"] == "ExprStmt" and st["e"]["k"] == "Break" for st in x["t"]["stmts"]):
-            breaks.append(q.show(x["c"]).replace(" ", ""))
+
+    def prec_rel(c, pol):
+        """'gt' / 'le' / 'lt' / 'ge' for a comparison of an operator's precedence with the binding power holding (or failing); None otherwise."""
+        if c["k"] != "Binary" or c["op"] not in ("<", "<=", ">", ">="):
+            return None
+        a, b = q.show(c["a"]).replace(" ", ""), q.show(c["b"]).replace(" ", "")
+        op = c["op"]
+        if b.endswith(".precedence()") and a == param:
+            a, b = b, a
+            op = {"<": ">", "<=": ">=", ">": "<", ">=": "<="}[op]
+        if not (a.endswith(".precedence()") and b == param):
+            return None
+        if not pol:
+            op = {"<": ">=", "<=": ">", ">": "<=", ">=": "<"}[op]
+        return {"<": "lt", "<=": "le", ">": "gt", ">=": "ge"}[op]
+
+    # inside the operator loop: leaving it because of an operator happens exactly under precedence <= power, and an operator is
+    # consumed (the recursion for its right operand, the postfix handler) exactly under precedence > power - whatever the spelling
+    loops = [x for x in q.walk(f["body"]) if x["k"] in ("Loop", "While")]
+    lp = loops[0] if loops else None
+    breaks, conts = [], []
+    if lp is not None:
+        for x in q.walk(lp["body"]):
+            atoms = None
+            if x["k"] == "Break":
+                atoms = q.cond_atoms(q.path_conds(lp["body"], x) or [])
+                rels = [prec_rel(c_, pol) for c_, pol in atoms]
+                rels = [r_ for r_ in rels if r_]
+                if rels:
+                    breaks.append(rels)
+            if x["k"] == "MethodCall" and q.show(x["recv"]) == "self" and (x["m"] == "parse_expr_bp" or "postfix" in x["m"] and x["m"] != "parse_postfix_op"):
+                atoms = q.cond_atoms(q.path_conds(lp["body"], x) or [])
+                rels = [r_ for r_ in (prec_rel(c_, pol) for c_, pol in atoms) if r_]
+                conts.append(rels)
     want = f"(op.precedence()<={param})"
-    r.ob(len(breaks) >= 2 and all(b == want for b in breaks), "parse.rs:parse_expr_bp:break-condition", PARSE, f["l"],
-         f"binary and postfix operators must stop the loop exactly when `op.precedence() <= {param}` (strictly greater continues: left associativity); break conditions are {breaks}", sample=f"parse_expr_bp: break iff {want}")
+    ok = lp is not None and len(breaks) >= 2 and all(b == ["le"] for b in breaks) and len(conts) >= 2 and all(c_ == ["gt"] for c_ in conts)
+    r.ob(ok, "parse.rs:parse_expr_bp:break-condition", PARSE, f["l"],
+         f"binary and postfix operators must stop the loop exactly when `op.precedence() <= {param}` (strictly greater continues: left associativity); the loop is left under {breaks} and operators are consumed under {conts}", sample=f"parse_expr_bp: break iff {want}")
     recs = [q.show(x["args"][0]).replace(" ", "") for x in q.walk(f["body"]) if x["k"] == "MethodCall" and x["m"] == "parse_expr_bp"]
     r.ob(len(recs) >= 2 and all(a == "op.precedence()" for a in recs), "parse.rs:parse_expr_bp:recursion-power", PARSE, f["l"],
          f"the right operand of a binary or prefix operator must be parsed with the operator's own precedence; recursion arguments are {recs}", sample=f"parse_expr_bp: recurses with {recs}")
@@ -198,6 +229,14 @@ def scan_term(ctx, r):
         return
     from lib.inline import materialize
 
+    # the lexer's cursor: the usize field its character table is subscripted with
+    POS = "index"
+    lx = q.find_struct(items, "Lexer")
+    if lx is not None:
+        usz = {fl["name"] for fl in lx["fields"] if fl["ty"].strip() == "usize"}
+        used = [y["f"] for f_ in q.find_fns(items) if f_.get("body") is not None for x in q.walk(f_["body"]) if x["k"] == "Index" for y in q.walk(x["i"]) if y["k"] == "Field" and y["f"] in usz and q.show(x["i"]).replace(" ", "") in ("self." + y["f"], "lexer." + y["f"])]
+        if used:
+            POS = max(set(used), key=used.count)
     has_loop = lambda inl: any(y["k"] in ("While", "Loop", "For") for y in q.walk(inl["body"]))  # noqa: E731
     slash_arm = materialize(slash_arm, closures_only=False, pred=has_loop)  # e.g. lexer.skip_rest_of_line()
     loops = [x for x in q.walk(slash_arm["body"]) if x["k"] == "While"]
@@ -214,7 +253,7 @@ def scan_term(ctx, r):
                 ok = False
             r.ob(ok, "lexer.rs:line-comment:loop-condition", LEX, lp["l"], "a line comment must continue exactly while the next char is not '\\n'", sample="line comment: while c != '\\n'")
             # the newline itself must not be consumed: index advances by `next` only
-            adv = [q.show(x["b"]) for x in q.walk(enclosing_if_then(slash_arm["body"], lp)) if x["k"] == "Binary" and x["op"] == "+=" and q.show(x["a"]).endswith(".index")]
+            adv = [q.show(x["b"]) for x in q.walk(enclosing_if_then(slash_arm["body"], lp)) if x["k"] == "Binary" and x["op"] == "+=" and q.show(x["a"]).endswith("." + POS)]
             r.ob(adv == ["next"], "lexer.rs:line-comment:consumes-newline", LEX, lp["l"], f"after a line comment the cursor must stop before the newline (the Newline token separates statements); it advances by {adv}", sample="line comment: index += next (newline kept)")
         elif "*" in chars and "/" in chars:
             found_block = True
@@ -237,7 +276,7 @@ def scan_term(ctx, r):
             lets = {q.pat_bindings(x["pat"])[0]: q.show(x["e"]) for x in q.walk(lp["c"]) if x["k"] == "Let" and q.pat_bindings(x["pat"])}
             a1, a2 = lets.get(star[0], ""), lets.get(slash[0], "")
             r.ob("(next)" in a1.replace(" ", "") and "(next+1)" in a2.replace(" ", ""), "lexer.rs:block-comment:adjacent-chars", LEX, lp["l"], f"the terminator test must look at adjacent characters: `*` at {a1}, `/` at {a2}")
-            adv = [q.show(x["b"]).replace(" ", "") for x in q.walk(enclosing_if_then(slash_arm["body"], lp)) if x["k"] == "Binary" and x["op"] == "+=" and q.show(x["a"]).endswith(".index")]
+            adv = [q.show(x["b"]).replace(" ", "") for x in q.walk(enclosing_if_then(slash_arm["body"], lp)) if x["k"] == "Binary" and x["op"] == "+=" and q.show(x["a"]).endswith("." + POS)]
             r.ob(adv == ["(next+2)"], "lexer.rs:block-comment:terminator-length", LEX, lp["l"], f"after the loop the cursor must skip the 2-character terminator; it advances by {adv}", sample="block comment: index += next + 2")
     r.ob(found_block, "lexer.rs:block-comment:loop", LEX, slash_arm["l"], "no block-comment skip loop found")
     r.ob(found_line, "lexer.rs:line-comment:loop", LEX, slash_arm["l"], "no line-comment skip loop found")
